@@ -186,8 +186,12 @@ class AsyncSimpleClient:
                 await asyncio.wait_for(self.connected_event.wait(),
                                        timeout=timeout)
             except asyncio.TimeoutError:  # pragma: no cover
+                if self.input_buffer:
+                    break  # an event arrived during the wait
                 raise TimeoutError()
             if not self.connected:
+                if self.input_buffer:
+                    break  # return buffered events before reporting the end
                 raise DisconnectedError()
             try:
                 await asyncio.wait_for(self.input_event.wait(),
